@@ -7,6 +7,7 @@ for d in seeded/*${1:-}*/; do
   name=$(basename $d)
   patch=/verif/$d/patch.diff; [ -f /verif/$d/patch-rebased.diff ] && patch=/verif/$d/patch-rebased.diff
   checks=$(python3 -c "import json;print(' '.join(json.load(open('$d/meta.json'))['detected_by']))")
+  if grep -q '"note_after_fix_' $d/meta.json; then echo "$name: NEUTRALISED by a later fix: commit (see meta.json); not re-checked"; continue; fi
   git -C /repo diff --quiet || { echo "/repo dirty"; exit 2; }
   if ! git -C /repo apply $patch 2>/dev/null; then echo "$name: PATCH-DOES-NOT-APPLY"; continue; fi
   res=""
